@@ -27,6 +27,13 @@ def gen_cases(tier, rng):
     for pre in (["fill:0:64"], ["fill:0:63", "r:0:0:1"], ["fill:0:63", "r:0:0:1", "u:0"], ["fill:0:62", "r:0:0:1", "r:1:0:2", "ma:0:1"], ["fill:0:65"]):
         for tail in (["r:1:0:2"], ["r:1:0:2", "q:1", "go:1:0"], ["u:0", "r:1:0:2", "go:1:0"], ["r:2:0:3", "go:2:0"]):
             cases.append("lifen c:0:1 " + " ".join(pre + tail))
+    # a registration REFUSED (recoverable abort: `rx`) because the function is already registered, or because every entry point
+    # of the back end is taken, leaves no trace: the set of registered functions is what it was, and once a slot is free the
+    # same function registers (D24)
+    for drv, n in (("life32", 3), ("life32", 2), ("lifen", 63), ("lifen", 62)):
+        for tail in (["rx:0:0:1", "u:1", "rx:0:0:1", "go:0:0"], ["rx:0:0:1", "rx:0:0:1", "u:1", "rx:2:0:1", "rx:0:0:3"], ["rx:0:0:2", "u:1", "rx:0:0:2", "q:0", "q:1"],
+                     ["rx:0:0:1", "rx:2:0:3", "u:1", "rx:2:0:3", "rx:0:0:1", "u:2", "rx:0:0:1"]):
+            cases.append("%s c:0:1 r:1:0:2 fill:0:%d %s" % (drv, n, " ".join(tail)))
     # releases in an order other than last-registered-first leave holes in the back end's table
     for rel in (["u:0", "u:1"], ["u:0", "occ:0", "u:1", "occ:0"], ["u:0", "u:1", "u:2", "occ:0"], ["u:1", "u:0", "occ:0"], ["u:0", "r:0:0:3", "occ:0", "u:1", "u:0", "occ:0"]):
         cases.append("lifen c:0:1 r:0:0:1 r:1:0:2 r:2:0:4 " + " ".join(rel) + " occ:0 r:0:0:5 occ:0")
